@@ -23,6 +23,27 @@ CHECKS = {
  'C15': ('invariant walker over the live token tree at quiescent points (after parse, after parse_substring, after each export) + run-time enum relation probe',
          'finite/acyclic, in-source ranges, root extent, prev/next consistency, sibling order, mate symmetry, type range on N trees from corpus, generated and hostile inputs, pool and no-pool; 14 numeric enum relations',
          'tail shortcut pointers are reported, not judged; root extent not judged for parse_substring'),
+ 'C08': ('strict XML parser (expat) as oracle over every XML/XHTML output and package member',
+         'N slot documents (XML-hostile atoms in every syntactic position) x {opml, fodt, itmz, odt, epub}: every XML member parses; violations are classified by mechanism (by-design passthrough of author-typed markup vs an escaping site)',
+         'expat without DTDs (only the five XML entities); sources are valid UTF-8 without C0/C1 controls other than tab/line breaks'),
+ 'C09': ('archive/structure monitors over produced packages: zip reader with CRC, member-set and manifest oracles, differential main-document check, asset-table consistency from the live engine',
+         'N generated documents (images inline/reference/titled/angle-bracketed/missing/empty/remote/long, css, hostile titles, headings, TOC) x {epub, odt, bundlezip, textbundle, itmz} x {directory, NULL}: archive integrity, required members, main document = plain rendering, references = asset table >= members, stored bytes = files',
+         'reference renderings come from the same library (differential); asset table dumped from the engine by the worker'),
+ 'C10': ('graph monitor over the href/id pairs of the HTML output',
+         'N note- and heading-heavy generated documents x {default, random footnote anchors, random labels, no labels, complete}: calls resolve, back-links reach the first call, numbering 1..n, no duplicate note ids, cross-references and TOC entries resolve to the heading meant',
+         'regex-level HTML parsing of the writer\'s own regular output; not-cited entries exempt from the back-link rule as the property states'),
+ 'C12': ('reference model: expected accept/reject text computed from a generated edit script',
+         'N edit scripts (nesting, empty payloads, paragraph-spanning marks, escaped braces, stray markers): whole string, sub-range, idempotence, and CLI -a/-r vs rendering the edited text',
+         'cases whose serialisation forms an unintended marker by juxtaposition are discarded and counted'),
+ 'C14': ('section model + round-trip and inverse-function monitors for OPML/ITMZ',
+         'N generated heading trees with hostile bodies: exported items carry title and exact section bytes; html(import(opml(src))) = html(src) in snippet and complete mode (also via ITMZ); unescape(escape(T)) = T',
+         'round trip judged only for properly nested headings, single-line metadata, sources without CR; expat normalises CR in attribute values'),
+ 'C16': ('strict UTF-8 validator over every textual output',
+         'N slot documents mixing byte-special code points (trailing 0xA0, C2/C3 leads, 3/4-byte) with every syntax character in 61 syntactic positions x 8 textual formats (+ package members) x option variants x 7 languages',
+         'inputs valid UTF-8 by construction'),
+ 'C20': ('metamorphic relations between executions (snippet/complete/default, metadata variants, key order, variables)',
+         'N bodies x metadata blocks {none, control-only, arbitrary, mixed, YAML} x {html, latex, beamer, memoir}: five relations, 7-12 conversions per case',
+         'control-key set taken from process_metadata_stack / documentation'),
  'C19': ('reference-model monitor: independent byte-vector model compared with DString after every operation, under ASan+UBSan',
          'N random operation sequences (<= 40 ops over the 13 public functions, boundary positions/lengths/sizes, NULL/NUL arguments, embedded NULs) in the core domain and in the SIZE_MAX overflow band: content, length, terminator, capacity and return values equal to the model after each operation',
          'empty search string and C-string reads over embedded NULs are outside the domain'),
